@@ -79,7 +79,7 @@ def leaks(output, ndl):
     return found
 
 
-ORIGINS = ["dict", "dict+extras", "dict-odd", "native", "pem", "der"]
+ORIGINS = ["dict", "dict+extras", "dict-odd", "dict-d-only", "native", "pem", "der"]
 
 
 def build(kind, origin):
@@ -89,6 +89,12 @@ def build(kind, origin):
         return A.jkey(jwk, "dict"), jwk
     if origin == "dict+extras":
         return A.jkey({**jwk, "kid": "my-key", "use": "sig" if kty != "oct" and not jwk.get("crv", "").startswith("X") else "enc", "x5t": "t"}, "dict"), jwk
+    if origin == "dict-d-only":
+        # RFC 7518 6.3.2: a private RSA JWK may carry d alone; for the other key types there is no such shape
+        if kty != "RSA":
+            return A.jkey({**jwk, "kid": "only-d"}, "dict"), jwk
+        from joserfc.jwk import RSAKey
+        return RSAKey.import_key({k: v for k, v in jwk.items() if k in ("kty", "n", "e", "d")}), jwk
     if origin == "dict-odd":
         # unusual but importable member combinations
         if kty == "RSA":
@@ -109,7 +115,8 @@ def operations(kty, crv):
            "KeySet.as_dict(private=False) mixed-oct-middle", "KeySet.as_dict(private=False) mixed-oct-last", "thumbprint", "kid", "dict(key) after public export",
            "private-export-from-public"]
     if kty != "oct":
-        ops += ["as_pem(private=False)", "as_der(private=False)", "as_bytes(PEM,private=False)", "as_bytes(DER,private=False)",
+        ops += ["as_pem(private=False,password)", "as_der(private=False,password)", "as_bytes(PEM,private=False,password)",
+                "as_pem(private=False)", "as_der(private=False)", "as_bytes(PEM,private=False)", "as_bytes(DER,private=False)",
                 "public-key-object re-export", "KeySet.as_dict(private=False)+import"]
     if kty == "oct" or kty == "RSA" or kty == "EC" or crv in ("Ed25519", "Ed448"):
         ops += ["jws-compact", "jws-flattened", "jws-general", "jws-7797", "jwt-jws", "jws-with-set"]
@@ -175,6 +182,12 @@ def h_outputs(ctx):
         r = call(key.thumbprint)
     elif op == "kid":
         r = call(lambda: (key.ensure_kid(), key.kid)[1])
+    elif op == "as_pem(private=False,password)":
+        r = call(lambda: key.as_pem(private=False, password="s3cret"))
+    elif op == "as_der(private=False,password)":
+        r = call(lambda: key.as_der(private=False, password=b"s3cret"))
+    elif op == "as_bytes(PEM,private=False,password)":
+        r = call(lambda: key.as_bytes(encoding="PEM", private=False, password="s3cret"))
     elif op == "as_pem(private=False)":
         r = call(lambda: key.as_pem(private=False))
     elif op == "as_der(private=False)":
@@ -262,6 +275,18 @@ def h_outputs(ctx):
     for s_ in structs:
         for path, m, ekty in walk(s_):
             vs.append(viol(f"{cls} output carries the private member {m!r} ({ekty})", f"{lab}: at {path or '/'}"))
+    if isinstance(out, bytes) and op.startswith(("as_pem", "as_der", "as_bytes")):
+        # a public export must BE a public key: an encrypted private-key file hides the octets from any search
+        from cryptography.hazmat.primitives import serialization as ser
+        for loader in (ser.load_pem_private_key, ser.load_der_private_key):
+            for pw in (None, b"s3cret"):
+                try:
+                    loader(out, pw)
+                    vs.append(viol(f"{cls} returns a private key file although a public export was asked for ({tag})", f"{lab}: loads as a private key{' with the password' if pw else ''}"))
+                except Exception:  # noqa
+                    pass
+        if b"PRIVATE KEY" in out:
+            vs.append(viol(f"{cls} returns a private key file although a public export was asked for ({tag})", f"{lab}: {out[:40]!r}"))
     found = leaks(out, ndl)
     for m in found:
         owner = "oct" if m == "k" else tag
